@@ -77,7 +77,7 @@ class G:
     def build(self, variant='G1'):
         PM, tm = self.PM, self.tm
         r = self.c.root()
-        if variant in ('G2', 'G3', 'G4'):
+        if variant in ('G2', 'G3', 'G4', 'G5'):
             return self._build_undo_chains(variant)
         r['a'] = PM()
         r['g'] = PM()
@@ -151,6 +151,19 @@ class G:
             self._undo_last('t6 undo t5: back-pointer to the second record of A in t4')
             r['keep']['n'] = 1
             self.commit('t7 unrelated')
+        elif variant == 'G5':
+            # the holder stays reachable; what it referred to is garbage for a while and is linked back in by an undo
+            # (the undo record of A is a back-pointer to a revision older than any pack time in between)
+            del A['B']
+            self.commit('t2 A drops its reference to B: B is garbage')
+            r['keep']['n'] = 1
+            self.commit('t3 unrelated')
+            import base64
+            t2 = [t.tid for t in self.s.iterator()][-2]
+            self.db.undo(base64.encodebytes(t2).rstrip(), self.tm.get())
+            self.commit('t4 undo t2: A refers to B again, B itself was never written again')
+            r['keep']['n'] = 2
+            self.commit('t5 unrelated')
         else:
             del r['A']
             A['v'] = 2
